@@ -273,10 +273,13 @@ bool Position::move_gives_check(Move move) const
 
     const Square from_sq = from(move);
     const Square to_sq = to(move);
-    const PieceKind moved_piece_kind = make_piece_kind(piece_at(from_sq));
+    // a promoting pawn gives check as the piece it becomes
+    const PieceKind moved_piece_kind = promotion(move) != NO_PIECE_KIND
+                                           ? promotion(move)
+                                           : make_piece_kind(piece_at(from_sq));
     const Bitboard from_bb = square_bb(from_sq);
     const Bitboard to_bb = square_bb(to_sq);
-    Bitboard blockers = pieces();
+    Bitboard blockers = pieces() ^ from_bb;
 
     // direct check
     switch (moved_piece_kind)
@@ -305,7 +308,7 @@ bool Position::move_gives_check(Move move) const
         default: assert(false);
     }
 
-    blockers = (blockers ^ from_bb) | to_bb;
+    blockers |= to_bb;
 
     // discovered check
     if (slider_attack<BISHOP>(king_sq, blockers) & pieces(color(), BISHOP, QUEEN))
